@@ -1251,6 +1251,14 @@ def run_intpack(inp):
     else:
         dev = float("inf")
     changed = max([float(np.max(np.abs(np.asarray(a, dtype=float) - np.asarray(b_, dtype=float)))) for a, b_ in zip(packed, snap) if np.size(a)] + [0.0])
+    # (soak false alarm, seed stream anchor-2: an integer form with a null coordinate vector in the complement of the prescribed
+    #  rows makes Gram-Schmidt divide by zero for the float64 array as well.)  The comparison is *with the float64 answer*:
+    #  where that answer is itself not finite (an input outside the helper's contract) nothing is claimed beyond agreement
+    #  on which entries are finite.
+    ref_finite = bool(all(finite(x) for x in ref))
+    if not ref_finite and same_shape:
+        agree = all(np.array_equal(np.isfinite(x), np.isfinite(y)) for x, y in zip(out, ref))
+        return {"dev": 0.0 if agree else float("inf"), "changed": changed, "finite": True, "reference_not_finite": True}
     return {"dev": dev, "changed": changed, "finite": bool(all(finite(x) for x in out))}
 
 
